@@ -13,15 +13,19 @@ MANIFEST = {
             "max(maxHeightGenerated+1, minActive)); maxHeightPrevoted/Precommitted are the largest windowed heights reaching the "
             "threshold in force at that height and never decrease; parameters of heights still in the window are never changed by "
             "pruning or SetBFTParameters; the window is the most recent 3*batch headers. Round-robin finality (block j final once "
-            "block j+2*thr-1 is applied) is proved only for n=1..12, 60 blocks (finite domain, by evaluation; named _partial). The model is "
+            "block j+2*thr-1 is applied) is proved for every number n >= 1 of unit-weight validators with batch = n and default thresholds "
+            "(other weight vectors: by the counting rule only); SetBFTParameters is specified (bounds, no-op or next-height activation, "
+            "carry-over of per-validator vote bookkeeping) and maxHeightCertified follows the newest non-empty aggregate commit. The model is "
             "tied to the Go module by running random histories (parameter changes, joining/leaving validators, deviating "
             "generators, chains longer than the window) on the real liskbft.Module/API over diffdb+pebble and comparing after every "
-            "block heights, weights, per-validator info, parameter keys and flags with the model evaluated inside Coq.",
+            "block heights, weights, per-validator info, parameter keys, GetBFTParameters (all three thresholds and the validators at probe heights; "
+            "the stored validatorsHash against an independent LIP-0058 computation), flags and generator keys with the model evaluated inside Coq.",
     "note": "Trusted: Coq kernel + vm_compute; fidelity of the hand-written model as sampled by the correspondence; Go harness and "
             "verif hook VerifC02DumpVotes; heights/weights are unbounded N in Votes.v — C02_votes32_agrees proves that the wrap-faithful "
             "model Votes32.v (every uint32/uint64 operation as in the Go code) computes the same results and errors on every valid chain "
             "with heights <= 2^32-2 and aggregate weights < 2^64; the certified height is taken "
-            "from the header's aggregate commit without checking it (that is C06). validatorsHash not modelled.",
+            "from the header's aggregate commit without checking it (that is C06). validatorsHash is not modelled in Coq: the harness recomputes it "
+            "from scratch (own encoder + sha256) and the equality is an observable. Validator addresses are assumed distinct (duplicates: sort order unspecified).",
 }
 IMPORTS = "From LE Require Import BFT.Contradiction BFT.Votes BFT.GenKeys Corr.C02."
 
@@ -46,9 +50,13 @@ def obs(o):
 
 
 def gen_obs(o):
-    return " %s %s %s)" % (clist(o.get("gkeys", [])),
-                           clist(o.get("gens", []), lambda g: "(%d, %s)" % (g["h"], "None" if g["err"] else "(Some %s)" % clist(g["addrs"]))),
-                           clist(o.get("at", []), lambda a: "(%d,%d)" % tuple(a)))
+    return " %s %s %s %s %s)" % (
+        clist(o.get("gkeys", [])),
+        clist(o.get("gens", []), lambda g: "(%d, %s)" % (g["h"], "None" if g["err"] else "(Some %s)" % clist(g["addrs"]))),
+        clist(o.get("at", []), lambda a: "(%d,%d)" % tuple(a)),
+        clist(o.get("params", []), lambda p: "(%d, %s)" % (p["h"], "None" if p["err"] else "(Some (%d, %d, %d, %s))" % (
+            p["pv"], p["pc"], p["cert"], clist(p["vals"], lambda v: "(%d,%d)" % tuple(v))))),
+        cbool(o.get("vhash", True)))
 
 
 def gens_of(chg):
